@@ -19,18 +19,16 @@ Definition neutralise_char (c : N) : text :=
   else [c].
 Definition neutralise (h : text) : text := flat_map neutralise_char h.
 
-(* XML 1.0 2.11: CR LF and lone CR become LF before parsing *)
-Fixpoint eol_norm (s : text) : text :=
+(* XML 1.0 2.11: CR LF and lone CR become LF before parsing.  after_cr: the previous character was a CR *)
+Fixpoint eol_from (after_cr : bool) (s : text) : text :=
   match s with
   | [] => []
   | c :: r =>
-    if c =? 13
-    then 10 :: match r with
-               | d :: r' => if d =? 10 then eol_norm r' else eol_norm r
-               | [] => []
-               end
-    else c :: eol_norm r
+    if c =? 13 then 10 :: eol_from true r
+    else if (c =? 10) && after_cr then eol_from false r
+    else c :: eol_from false r
   end.
+Definition eol_norm (s : text) : text := eol_from false s.
 
 (* 3.3.3 on literal characters: tab / newline (CR is gone already) become a space *)
 Definition attr_norm (v : text) : text :=
